@@ -130,9 +130,9 @@ def _escape_pipeline(tree: ast.Module, inv_map: dict[str, str]) -> tuple[list[tu
     * condition: always / only when ``multiline`` / only when not ``multiline`` (from ``A if multiline else B`` and from
       ``if multiline:`` / ``if not multiline:`` statements).
 
-    Accepted statement forms: ``text = <expr>``, ``if [not] multiline: <assignments> [else: <assignments>]``, a final
-    ``return <expr>``; ``<expr>`` is the text variable or a ``sub`` / ``replace`` call on an ``<expr>``.  Anything else
-    raises TranslateError.  Whether the resulting pipeline is the per-character table substitution that the theorems
+    Accepted statement forms: ``text = <expr>``, ``return <expr>``, ``if [not] multiline: <statements> [else: <statements>]``
+    (early returns inside branches included; every path must return); ``<expr>`` is the text variable or a ``sub`` /
+    ``replace`` call on an ``<expr>``.  Anything else raises TranslateError.  Whether the resulting pipeline is the per-character table substitution that the theorems
     are about is NOT decided here: it is the instance obligation `escape_text_is_one_table_substitution_*`."""
     e = _func(tree, 'escape_text')
     argn = [a.arg for a in e.args.args]
@@ -198,23 +198,44 @@ def _escape_pipeline(tree: ast.Module, inv_map: dict[str, str]) -> tuple[list[tu
                 return steps_of(f.value, cond) + [(cond, 'replace', old, new)]
         raise TranslateError(f'tokenizer.py:{getattr(node, "lineno", e.lineno)}: escape_text: unrecognised expression `{ast.unparse(node)}`')
 
-    def assigns(stmts: list[ast.stmt], cond: int) -> list[tuple[int, str, str, str]]:
+    def neg(c: int) -> int:
+        return C_SINGLE if c == C_MULTI else C_MULTI
+
+    def block(stmts: list[ast.stmt], live: int | None) -> tuple[list[tuple[int, str, str, str]], int | None]:
+        """Steps of a statement list entered under condition `live`; second component: the condition under which control
+        falls out of its end (None = every path returned)."""
         out: list[tuple[int, str, str, str]] = []
         for st in stmts:
-            if isinstance(st, ast.Assign) and len(st.targets) == 1 and isinstance(st.targets[0], ast.Name) and st.targets[0].id == tvar:
-                out += steps_of(st.value, cond)
-            elif isinstance(st, ast.If) and cond == C_ALWAYS:
+            if live is None:
+                raise TranslateError(f'tokenizer.py:{st.lineno}: escape_text: statement after a return on every path')
+            if isinstance(st, ast.Return) and st.value is not None:
+                out += steps_of(st.value, live)
+                live = None
+            elif isinstance(st, ast.Assign) and len(st.targets) == 1 and isinstance(st.targets[0], ast.Name) and st.targets[0].id == tvar:
+                out += steps_of(st.value, live)
+            elif isinstance(st, ast.If):
                 c = cond_of(st.test)
-                out += assigns(st.body, c)
-                out += assigns(st.orelse, C_SINGLE if c == C_MULTI else C_MULTI)
+                lives = []
+                for cc, body in ((both(live, c), st.body), (both(live, neg(c)), st.orelse)):
+                    if cc is None:
+                        continue                      # dead branch
+                    s1, l1 = block(body, cc)
+                    out += s1
+                    if l1 is not None:
+                        lives.append(l1)
+                if not lives:
+                    live = None
+                elif len(lives) == 1:
+                    live = lives[0]
+                else:
+                    live = lives[0] if lives[0] == lives[1] else C_ALWAYS
             else:
                 raise TranslateError(f'tokenizer.py:{st.lineno}: escape_text: unrecognised statement `{ast.unparse(st).splitlines()[0]}`')
-        return out
+        return out, live
 
-    body = _strip_doc(e)
-    if not body or not isinstance(body[-1], ast.Return) or body[-1].value is None:
-        raise TranslateError('escape_text: the body does not end in `return <expr>`')
-    pipeline = assigns(body[:-1], C_ALWAYS) + steps_of(body[-1].value, C_ALWAYS)
+    pipeline, live_end = block(_strip_doc(e), C_ALWAYS)
+    if live_end is not None:
+        raise TranslateError('escape_text: a path reaches the end of the body without `return <expr>`')
     return pipeline, regs
 
 
